@@ -360,3 +360,7 @@ impl Display for MultiDimLoad {
         write!(f, "{:?}", self.load)
     }
 }
+
+#[cfg(kani)]
+#[path = "/verif/kani/vrp-core/load_proofs.rs"]
+mod verif_kani_proofs;
